@@ -481,6 +481,19 @@ class PoolManager(RequestMethods):
         if not isinstance(retries, Retry):
             retries = Retry.from_int(retries, redirect=redirect)
 
+        # The pool retried errors with copies of this policy before it handed
+        # the redirect back to us: what it spent on them stays spent.
+        spent = response.retries
+        if isinstance(spent, Retry):
+            retries = retries.new(
+                total=spent.total,
+                connect=spent.connect,
+                read=spent.read,
+                status=spent.status,
+                other=spent.other,
+                history=spent.history,
+            )
+
         # Strip headers marked as unsafe to forward to the redirected location.
         # Check remove_headers_on_redirect to avoid a potential network call within
         # conn.is_same_host() which may use socket.gethostbyname() in the future.
